@@ -514,3 +514,87 @@ func TestC20HostFunctions(t *testing.T) {
 		}
 	})
 }
+
+// failedCase: a local holds a value; an evaluation fails while it computes the right-hand side of an
+// assignment to that local; the local is read afterwards.
+type failedCase struct {
+	NoMap bool   `json:"no_map"`
+	Bind  string `json:"bind"` // formula that binds $x
+	Fail  string `json:"fail"` // formula that fails inside the right-hand side of `$x = ...`
+}
+
+func checkFailedAssignment(c failedCase) string {
+	r := formula.NewRunner()
+	data := map[string]interface{}{"a": 2, "s": "txt"}
+	if !c.NoMap {
+		r.SetThis(data)
+	}
+	eval := func(text string) obs.EvalOut {
+		p := obs.Parse([]byte(text))
+		if !p.OK() {
+			return obs.EvalOut{Panic: "HARNESS: " + text}
+		}
+		return obs.Eval(r, context.Background(), p.Src.Expression)
+	}
+	if b := eval(c.Bind); b.Panic != nil || b.Err != nil {
+		return fmt.Sprintf("HARNESS: %s: %v %v", c.Bind, b.Err, b.Panic)
+	}
+	before := eval("[$x, typeof $x]")
+	f := eval(c.Fail)
+	if f.Panic != nil {
+		return fmt.Sprintf("%s panicked: %v", c.Fail, f.Panic)
+	}
+	if f.Err == nil {
+		return "" // the formula did not fail here (e.g. no data map): nothing to observe
+	}
+	after := eval("[$x, typeof $x]")
+	if after.String() != before.String() {
+		return fmt.Sprintf("after %q, $x read %s; then %q failed while computing the value to assign - no assignment to $x was completed - and $x reads %s", c.Bind, before, c.Fail, after)
+	}
+	if !c.NoMap {
+		if got := obs.Show(data["$x"]); got != obs.Show(before.Val.([]interface{})[0]) && before.Err == nil {
+			return fmt.Sprintf("after %q failed, the caller's map holds $x = %s, the runner read %s before", c.Fail, got, before)
+		}
+	}
+	return ""
+}
+
+func init() {
+	h.RegisterReplay("c20-failed", func(raw json.RawMessage) string {
+		c, err := h.Decode[failedCase](raw)
+		if err != nil {
+			return "bad replay: " + err.Error()
+		}
+		return checkFailedAssignment(c)
+	})
+}
+
+// TestC20FailedAssignment: whatever a failing evaluation leaves behind - the assignments it completed, or
+// none of them - a local whose new value was never computed keeps the value it had.
+func TestC20FailedAssignment(t *testing.T) {
+	run := h.Begin("C20", "failed-assignment", "enumerated: 5 formulas that bind $x (number, string, list, many-digit number, a copy of a data entry) x 8 formulas that fail while computing the right-hand side of '$x = ...' (operator misuse, a forbidden assignment inside, '!.' on null, an argument that has no conversion, a failing call after another local was bound), with and without a data map; oracle: $x (value and type, and the caller's entry) reads as before the failed evaluation - both treatments of a failed evaluation the other checks allow, keeping completed assignments or dropping them, agree on that; non-trivial: the second formula failed")
+	defer run.End(t)
+	binds := []string{"$x = a + 1", "$x = 'kept'", "$x = [1, 'two']", "$x = 12345678901234567890.5", "$x = s"}
+	fails := []string{"$x = -true", "$x = (a = 1)", "$x = $none!.k", "$y = 7, $x = (1 = 2)", "$x = left('abc', 'z')", "$x = [1, (a = 2)]", "$x = ($y = 5, (s = 1))", "[$x = (a = 1)]"}
+	var idx int64
+	for _, nomap := range []bool{false, true} {
+		for _, b := range binds {
+			for _, f := range fails {
+				idx++
+				if !h.Mine(idx) {
+					continue
+				}
+				c := failedCase{NoMap: nomap, Bind: b, Fail: f}
+				msg := checkFailedAssignment(c)
+				run.Count(true, "history")
+				if idx%11 == 0 {
+					run.Sample("history", b+" ; "+f+" ; $x")
+				}
+				if msg != "" {
+					run.Fail("c20-failed", c, msg)
+				}
+			}
+		}
+	}
+	run.Exhaustive()
+}
